@@ -29,4 +29,14 @@ Definition stack_expand (cap : N) : N := grow54 cap.
 (** ElemStack::expandMap / addChild: oldCap ? (XMLSize_t)(oldCap * 1.25) : initial *)
 Definition map_expand (cap : N) : N := if cap =? 0 then elemGrowInitMin else grow54 cap.
 
+(** DFAContentModel::buildDFA: a new DFA state is stored at index [curState] of statesToDo / fTransTable, then
+    curState++, then "if (curState <test> curArraySize)" the three arrays are re-allocated with
+    (unsigned int)(curArraySize * 1.5) entries.  The test operator is read from the source:
+    dfaGrowTest = 0 for ==, 1 for >=, 2 for >.   result: (index written, new curState, new curArraySize) *)
+Definition dfa_full (cur size : N) : bool :=
+  if dfaGrowTest =? 0 then cur =? size else if dfaGrowTest =? 1 then size <=? cur else size <? cur.
+Definition dfa_add_state (cur size : N) : N * N * N :=
+  let cur' := cur + 1 in
+  (cur, cur', if dfa_full cur' size then size * dfaGrowNum / dfaGrowDen else size).
+
 Fixpoint iter_grow (f : N -> N) (n : nat) (x : N) : N := match n with O => x | S k => f (iter_grow f k x) end.
